@@ -49,3 +49,23 @@ Fixpoint run_model (chain : list fmt) (cs : list cue) : result (list cue) :=
   | [] => Ok cs
   | f :: t => do cs' <- hop f cs; run_model t cs'
   end.
+
+(* ---- MicroDVD writer at string level (MicroDVDWriter._recreate_lang), for the document-level
+   round trip: frames, then the text: TEXT nodes verbatim, BREAK nodes as '|' ------------------ *)
+(* while p in s: s = s.replace(p, r) *)
+Fixpoint collapse (fuel : nat) (p r s : str) : str :=
+  match fuel with
+  | O => s
+  | S f => if is_infix p s then collapse f p r (replace p r s) else s
+  end.
+
+Definition mdvd_content (lines : list str) : str :=
+  let c1 := strip (join [124] lines) ++ [10] in
+  let c2 := collapse (length c1) [10; 10] [10] c1 in
+  collapse (length c2) [124; 10] [10] c2.
+
+Definition mdvd_write_cue (c : Z * Z * list str) : str :=
+  let '(s, e, lines) := c in
+  123 :: mdvd_token (inject_Z s) ++ 125 :: 123 :: mdvd_token (inject_Z e) ++ 125 :: mdvd_content lines.
+
+Definition mdvd_write (cs : list (Z * Z * list str)) : str := flat_map mdvd_write_cue cs.
